@@ -438,7 +438,10 @@ func VerifC17Explicit() {
 // VerifC17Identifier: the branch identifier is a function of (xid, branch id)
 // and decodes back to them.
 func VerifC17Identifier() {
-	xid := vrt.String("xid", vrt.Choice("xidlen", 4))
+	// a coordinator address as short as it gets, or a long host name (the whole
+	// identifier then exceeds 64 bytes), then an arbitrary tail
+	host := []string{"", "seata-server-0.seata-headless.prod.svc.cluster.local:8091:4611686018"}[vrt.Choice("host", 2)]
+	xid := host + vrt.String("xid", vrt.Choice("xidlen", 4))
 	b := c17BranchIDs[vrt.Choice("branchId", len(c17BranchIDs))]
 	x := XaIdBuild(xid, b)
 	vrt.Reach("id/built")
@@ -449,7 +452,7 @@ func VerifC17Identifier() {
 		vrt.Assert(y.GetGlobalXid() == xid && y.GetBranchId() == b, "id/round-trip")
 	}
 	// another (xid, branch) pair of the same shape gives a different text
-	xid2 := vrt.String("xid2", len(xid))
+	xid2 := host + vrt.String("xid2", len(xid)-len(host))
 	b2 := c17BranchIDs[vrt.Choice("branchId2", len(c17BranchIDs))]
 	if xid2 != xid || b2 != b {
 		vrt.Assert(XaIdBuild(xid2, b2).String() != x.String(), "id/injective-for-equal-length-xids")
